@@ -1,6 +1,6 @@
 PROP = dict(
     gen=["gsm7", "widths", "charsets"],
-    proof_files=["Properties/C07.v", "Proofs/ComposeInst.v", "Proofs/ComposeProofs.v", "Proofs/SplitterProofs.v", "Proofs/ComposeText.v", "Proofs/CharsetRoundtrip.v"],
+    proof_files=["Properties/C07.v", "Proofs/ComposeInst.v", "Proofs/ComposeProofs.v", "Proofs/SplitterProofs.v", "Proofs/ComposeText.v", "Proofs/TablesAgree.v", "Proofs/CharsetRoundtrip.v"],
     model_files=["Model/Gsm7.v", "Model/Splitter.v", "Model/Compose.v", "Model/IntervalMap.v", "Model/Charset.v", "Model/ComposeText.v"],
     trusted=["Gen/Widths.v: for each of the ten codings every one of the 1,112,064 Unicode scalar values as a one-character text through "
              "DataCoding.Encoding().NewEncoder().Bytes (accepted? octets returned) and through DataCoding.Splitter() (bits charged), as maximal "
@@ -32,6 +32,6 @@ MANIFEST = dict(
          "size check never refuses (C07_no_size_refusal); false for ISO-2022-JP (C07_width_sound_iso2022jp_refuted), where the size check keeps "
          "C07_fits true. GSM 7-bit: payloads decode to the segments modulo the C08 trailing-CR rule (C07_gsm7_lossless).",
     note="Trusted: Coq kernel + vm_compute; table dumper and generators; x/text encoders (rune-wise independence; ISO-2022-JP state machine shape). "
-         "Fixed in the repo: D11, D12 (three commits). Partial: C07_tables_agree_partial (Gen/Widths.v vs Gen/Charsets.v) is in the build for the "
-         "single-octet charsets only. No axioms.",
+         "Fixed in the repo: D11, D12 (three commits). Gen/Widths.v vs Gen/Charsets.v: C07_tables_agree, run-wise kernel check for all eight stateless table codings "
+         "(ISO-2022-JP is stateful and outside by nature). No axioms.",
 )
